@@ -75,7 +75,7 @@ Proof.
   set (s2 := {| cs_ := cs_ s1;
                 sb := if p_hasbackrefs prog then repeat None (p_maxparens prog) else sb s1;
                 eb := if p_hasbackrefs prog then repeat None (p_maxparens prog) else eb s1;
-                anchored := false; hist := hist s1 |}) in E.
+                anchored := false; hist := [] |}) in E.
   assert (Q2 : start0 i s2).
   { unfold start0, s2, s1, set_pstart, set_pcount, with_cs. cbn [cs_ startn]. apply setg0_nth_error. exact Hl. }
   pose proof (frame_start0 i [0] i s2 Q2) as F.
